@@ -14,6 +14,12 @@
   C17.ACC  order-domain: with advertised inclusion == enforced inclusion and advertised exclusion ⊇
            enforced exclusion, every non-zero P with SystemBounds.__contains__(P) true is admitted by
            _check_request, for adjust_power true and false.
+  C17.DIST the last clause ('... at least the sum of the minimum powers of the groups involved, so it can be distributed
+           without entering any exclusion zone'): the premises the distribution has to supply -- the per-inverter split
+           stays out of every inverter's zone, the bound tables hold each component's own bound (the minimum power
+           C17.AGG reasons about is the one computed; the battery's zone is left to the group sum), the books of the
+           reservation balance (no negative remainder pushes a group back below its minimum power) -- decided by C02's
+           rule functions and re-issued here.
 
 How the terms are read (refactor-robust): both functions are walked symbolically (engine/sympath) with
 their simple private helpers spliced in, so every local is substituted into its uses; an accumulation
@@ -872,35 +878,100 @@ CONTROLS = [
      "            for b, v in self._bat_inv_map.items()\n        }\n", "C17.TOPO"),
     ("the distributor looks a group's inverters up in another entry of the topology maps", BMM,
      '        self._bat_invs_map = maps["bat_invs"]\n', '        self._bat_invs_map = maps["inv_invs"]\n', "C17.TOPO"),
+    ("an inverter's exclusion entry is raised to the exclusion bound of the battery behind it", BDA_MOD,
+     "                    excl_bounds[inverter.component_id] = (\n                        inverter.active_power_exclusion_upper_bound\n                    )\n",
+     "                    excl_bounds[inverter.component_id] = max(\n                        inverter.active_power_exclusion_upper_bound,\n"
+     "                        battery.power_bounds.exclusion_upper,\n                    )\n", "C17.DIST"),
+    ("deficit covering zeroes a snapshot of the donor's reserve, not the donor's entry", BDA_MOD,
+     "                    excess_reserved[largest.inverter_ids] = 0.0\n", "                    largest.power = 0.0\n", "C17.DIST"),
 ]
 
 
+# the premises of the property's last clause, each decided by a rule function of C02 (which owns the set-point
+# clauses): (C02 rule function, C02 rule ids it reports with their instance floors, what the premise is for C17)
+DIST_PARTS = (
+    ("check_inv", {"C02.INV": 4},
+     "the split of a group's allocation over its inverters",
+     "an admitted power is split over the inverters of a group into an exclusion zone: ", ""),
+    ("check_tab", {"C02.TAB": 6},
+     "the bound tables of the distribution",
+     "a power inside the advertised bounds is distributed with a bound table that does not hold the component's own bound: ",
+     ".  [The group minimum power max(excl[battery], min_i excl[inverter_i]) that C17.AGG puts below the group's share "
+     "max(b, Σ_i x_i) of the advertised exclusion bound, and the split's guard excl[i] <= rest, are proved for "
+     "excl[battery] = b and excl[inverter_i] = x_i (own bounds, requested direction) only.  The battery's zone is kept "
+     "by the SUM over the group's inverters (what the advertised bound is computed from): an inverter entry raised to "
+     "the battery's bound -- the mirror image of the inclusion clamp -- makes the split pass over an inverter when the "
+     "rest is below the battery's bound, the rest stays undistributed and the battery runs inside its own exclusion "
+     "zone; an entry that is scaled, read from another component, the other direction or the other table moves the "
+     "minimum power off the advertised bound likewise]"),
+    ("check_book", {"C02.BOOK": 3, "C02.RES": 5},
+     "the books of the reservation (minimum powers handed out, reserve, deficits, remainder of the top-up)",
+     "a power inside the advertised bounds is distributed with books that do not balance: ",
+     ".  ['At least the sum of the groups' minimum powers, so it can be distributed without entering any exclusion "
+     "zone' needs every group to keep the minimum power it is handed up front: the top-up gets request - (what the "
+     "cells received), deficit covering takes from the donor's own entry what the deficit gains.  An update that goes "
+     "to a snapshot / copy of the entry (never written back), to another key or nowhere, a reserve counted twice, a "
+     "group booked without being served: the ledger exceeds the request and the negative remainder is taken back from "
+     "a group, which ends below its minimum power, inside its exclusion zone]"),
+)
+
+
 def check_dist(run: Run, prog: Program) -> None:
-    """Last clause of the property: an admitted power 'can be distributed without entering any exclusion
-    zone'.  At group level that is C17.AGG (Σ_g min_power_g below the advertised exclusion bound); at
-    inverter level it is the split of a group's allocation over its inverters, which C02.INV decides
-    (every stored set-point is zero, the whole allocation of a one-inverter set, or min(incl[i], R)
-    on a path that established excl[i] <= R with R the power still to be placed).  C02's rule function
-    is run as it is into a scratch run and its verdicts are re-issued under C17.DIST."""
+    """Last clause of the property: an admitted power 'is at least the sum of the minimum powers of the battery
+    groups involved, so it can be distributed without entering any exclusion zone'.  C17.AGG proves the inequality
+    (Σ_g min_power_g below the advertised exclusion bound) for the *shape* max(excl[b], min_i excl[i]); the 'so it can
+    be distributed' rests on three premises about the distribution, which C02 owns and decides:
+
+      split   every stored inverter set-point is zero, the whole allocation of a one-inverter set, or min(incl[i], R)
+              on a path that established excl[i] <= R, R the power still to be placed            (C02.INV)
+      tables  excl[·] / incl[·] hold each component's own bound of the requested direction (an inclusion entry may be
+              clipped further, an exclusion entry may not be raised): the minimum power C17.AGG reasons about is the
+              one computed, and the battery's zone is left to the group sum                     (C02.TAB)
+      books   per path the distributed-power ledger grows by what the cells receive, the reservation by
+              max(share, min_power), deficit covering takes from the donor's own entry what the deficit gains: the
+              remainder handed to the top-up is never negative because of the books, so no group is pushed back
+              below the minimum power it was handed                                             (C02.BOOK, C02.RES)
+
+    C02's rule functions are run as they are into a scratch run and their verdicts re-issued under C17.DIST (one source
+    of truth for the clause; a tree C02 cannot read is one C17 cannot read either: fail closed)."""
     try:
-        from .c02 import check_inv
+        from . import c02
     except ImportError as exc:  # fail closed: the clause would silently go undecided
-        raise AnalysisError(f"C17.DIST: the per-inverter split rule of C02 is not importable ({exc})") from None
-    scratch = Run(run.prop_id, run.tier, run.seed)
-    scratch.quiet = True
-    check_inv(scratch, prog)
-    for q in scratch.functions:
-        run.analysed(q)
-    bad = set()
-    for v in scratch.violations:
-        file, _, line = v.where.rpartition(":")
-        at = ast.Pass(lineno=int(line)) if line.isdigit() else None
-        bad.add(f"{v.rule}|{v.function} :: {first_line(v.construct, 100)}")
-        run.violation("C17.DIST", v.function, v.construct,
-                      "an admitted power is split over the inverters of a group into an exclusion zone: " + v.message,
-                      node=at, file=(file if at is not None else v.where) or None, path=v.path)
-    for d in sorted(scratch.distinct - bad):           # what the scratch run discharged
-        run.ok("C17.DIST", d.split("|", 1)[1])
+        raise AnalysisError(f"C17.DIST: the distribution rules of C02 are not importable ({exc})") from None
+    guarded = getattr(c02, "_guarded", None)
+    reported: set[tuple[str, str, str]] = set()             # a wrong anchor shared by two parts is reported once
+    for fname, floors, what, lead, why in DIST_PARTS:
+        rule_fn = getattr(c02, fname, None)
+        if rule_fn is None:
+            raise AnalysisError(f"C17.DIST: C02's rule function `{fname}` ({what}) was not found")
+        scratch = Run(run.prop_id, run.tier, run.seed)
+        scratch.quiet = True
+        if guarded is not None:
+            guarded(rule_fn, scratch, prog)             # an anchor that is recognisably wrong is a violation
+        else:
+            rule_fn(scratch, prog)
+        for q in scratch.functions:
+            run.analysed(q)
+        bad = set()
+        for v in scratch.violations:
+            file, _, line = v.where.rpartition(":")
+            at = ast.Pass(lineno=int(line)) if line.isdigit() else None
+            bad.add(f"{v.rule}|{v.function} :: {first_line(v.construct, 100)}")
+            if (v.function, v.construct, v.message) in reported:
+                continue
+            reported.add((v.function, v.construct, v.message))
+            # worded by the premise the verdict belongs to (a wrong anchor found while binding roles for another part)
+            v_lead, v_why = next(((l, w) for _f, fl, _wh, l, w in DIST_PARTS if v.rule in fl), (lead, why))
+            run.violation("C17.DIST", v.function, v.construct, v_lead + v.message + v_why,
+                          node=at, file=(file if at is not None else v.where) or None, path=v.path)
+        if not scratch.violations:
+            for rid, minimum in floors.items():
+                have = sum(1 for d in scratch.distinct if d.startswith(rid + "|"))
+                if have < minimum:
+                    raise AnalysisError(f"C17.DIST: {what}: only {have} instance(s) of {rid} decided, floor is {minimum} "
+                                        "(the premise would pass vacuously)")
+        for d in sorted(scratch.distinct - bad):           # what the scratch run discharged
+            run.ok("C17.DIST", d.split("|", 1)[1])
 
 
 def check_only(run: Run, prog: Program) -> None:
@@ -1116,6 +1187,39 @@ def structural_controls(prog: Program) -> list[tuple[str, str, str, str, str]]: 
     if einv is not None and isinstance(einv.value, ast.Subscript) and isinstance(einv.value.slice, ast.Constant) \
             and isinstance(einv.value.slice.value, str):
         add(CONTROLS[15][0], BMM, [(einv.value.slice, '"inv_invs"' if einv.value.slice.value != "inv_invs" else '"inv_bats"')])
+    # 15. the table of per-component exclusion bounds: an inverter's entry (keyed `<inverter>.component_id`, value the
+    #     inverter's own upper exclusion bound) takes the larger of its own and the battery aggregate's bound
+    dsrc = prog.module(BDA_MOD).source
+    bda = prog.cls(f"{BDA_MOD}:BatteryDistributionAlgorithm")
+    own_attr = next(k for k, v in INV_ATTR.items() if v == "eu")
+    entries = [(m, st) for m in bda.methods.values() for st in ast.walk(m.node) if isinstance(st, ast.Assign)
+               and len(st.targets) == 1 and isinstance(st.targets[0], ast.Subscript)
+               and isinstance(st.targets[0].slice, ast.Attribute) and st.targets[0].slice.attr == "component_id"
+               and isinstance(st.value, ast.Attribute) and st.value.attr == own_attr
+               and u(st.value.value) == u(st.targets[0].slice.value)]
+    if len(entries) == 1:
+        m, st = entries[0]
+        bat = [x for x in ast.walk(m.node) if isinstance(x, ast.Attribute) and x.attr == "exclusion_upper"
+               and isinstance(x.value, ast.Attribute) and x.value.attr == "power_bounds"]
+        if bat:
+            add(CONTROLS[16][0], BDA_MOD, [(st.value, f"max({seg(dsrc, st.value)}, {seg(dsrc, bat[0])})")])
+    # 16. deficit covering: the store that empties the donor's entry of the reserve table (`R[<snapshot>.<key field>] = 0`
+    #     inside the covering `while`, R also reduced by `R[…] += …` there) goes to the snapshot's other field instead
+    zeroed = [(st, st.targets[0]) for m in bda.methods.values() for w in ast.walk(m.node) if isinstance(w, ast.While)
+              for st in ast.walk(w) if isinstance(st, ast.Assign) and len(st.targets) == 1
+              and isinstance(st.targets[0], ast.Subscript) and isinstance(st.targets[0].value, ast.Name)
+              and isinstance(st.value, ast.Constant) and st.value.value == 0
+              and isinstance(st.targets[0].slice, ast.Attribute) and isinstance(st.targets[0].slice.value, ast.Name)
+              and any(isinstance(a, ast.AugAssign) and isinstance(a.target, ast.Subscript)
+                      and u(a.target.value) == u(st.targets[0].value) for a in ast.walk(w))]
+    if len({id(st) for st, _t in zeroed}) == 1:
+        st, tgt = zeroed[0]
+        try:
+            other = [f for f in record_fields(prog, BDA_MOD, "_Allocation") if f != tgt.slice.attr]  # type: ignore[attr-defined]
+        except (AnalysisError, KeyError):
+            other = []
+        if len(other) == 1:
+            add(CONTROLS[17][0], BDA_MOD, [(tgt, f"{tgt.slice.value.id}.{other[0]}")])  # type: ignore[attr-defined]
     return [(nm, module, *built.get(nm, (old, new)), rule) for nm, module, old, new, rule in CONTROLS]
 
 
@@ -1193,9 +1297,12 @@ def check(run: Run, prog: Program, tier: str) -> str:
     run.rule("C17.ACC", "for every ordering: P != 0 inside the advertised bounds => _check_request admits it")
     run.rule("C17.ONLY", "OutOfBounds is built only inside the admission test, whose every OutOfBounds path C17.ACC "
              "decides; no other code on the request path may answer out-of-bounds")
-    run.rule("C17.DIST", "an admitted power is split over a group's inverters without entering an inverter's "
-             "exclusion zone: every set-point is zero, a one-inverter set's whole allocation, or min(incl[i], R) "
-             "under excl[i] <= R (C02.INV's rule, re-issued)")
+    run.rule("C17.DIST", "an admitted power (>= Σ_g min_power_g) is distributed without entering an exclusion zone: every "
+             "inverter set-point is zero, a one-inverter set's whole allocation, or min(incl[i], R) under excl[i] <= R; the "
+             "bound tables hold each component's own bound of the requested direction (an inverter's exclusion entry is "
+             "not raised to the battery's: the battery's zone is kept by the group sum); the distributed-power ledger, the "
+             "reservation and deficit covering balance per path, so no group is taken back below its minimum power "
+             "(C02.INV / C02.TAB / C02.BOOK+RES, re-issued)")
     run.rule("C17.EXACT", "advertised, enforced and shared aggregations reduce floats with math.fsum only (exactly rounded, "
              "order independent): the two sides arrive at the same float, not only the same real number")
     run_rules(run, prog)
@@ -1203,7 +1310,7 @@ def check(run: Run, prog: Program, tier: str) -> str:
     run.floor("C17.AGG", 14)
     run.floor("C17.TOPO", 2)
     run.floor("C17.ACC", 30)
-    run.floor("C17.DIST", 4)
+    run.floor("C17.DIST", 18)
     run.floor("C17.ONLY", 1)
     from ..engine.controls import run_controls
 
